@@ -405,11 +405,17 @@ def run(R):
         for hq in sorted(helper_quals):
             h = ctx(R, hq)
             for n in h.cfg.nodes:
+                # a deletion: `del self.<trie>[k]`, or `self.<trie>.pop(k[, default])`
+                gone = []
                 if n.kind == 'stmt' and isinstance(n.ast, ast.Delete):
-                    for t in n.ast.targets:
-                        if isinstance(t, ast.Subscript) and self_attr(t.value, trie):
+                    gone = [t.slice for t in n.ast.targets if isinstance(t, ast.Subscript) and self_attr(t.value, trie)]
+                elif n.kind == 'stmt':
+                    gone = [c_.args[0] for c_ in n.calls() if callee_attr(c_) == 'pop' and self_attr(c_.func.value, trie) and c_.args]
+                if gone:
+                    for t_slice in gone:
+                        if True:
                             ndel += 1
-                            key = ast.unparse(t.slice)
+                            key = ast.unparse(t_slice)
                             ident = []
                             for tn in h.cfg.nodes:
                                 if tn.kind == 'test' and isinstance(tn.ast, ast.Compare) and len(tn.ast.ops) == 1 \
@@ -511,11 +517,15 @@ def run(R):
                 probs.append((f'satisfy is called on {ast.unparse(sc.func.value)}, not on the visited node', sc))
             # first arg: DataTuple in order from the parameters
             params = [a.arg for a in od.f.node.args.args[1:]] + [a.arg for a in od.f.node.args.kwonlyargs]
-            if not (sc.args and isinstance(sc.args[0], ast.Tuple) and [ast.unparse(e) for e in sc.args[0].elts] == params[:5]):
-                probs.append((f'the packet tuple handed to satisfy is {ast.unparse(sc.args[0]) if sc.args else "?"}, expected {tuple(params[:5])}', sc))
+            # (arguments by position or by their parameter names `data` / `is_prefix`; the receiver is a loop variable, so keywords stay keywords)
+            kws = {k.arg: k.value for k in sc.keywords if k.arg}
+            a_data = sc.args[0] if sc.args else kws.get('data')
+            a_pref = sc.args[1] if len(sc.args) > 1 else kws.get('is_prefix')
+            if not (a_data is not None and isinstance(a_data, ast.Tuple) and [ast.unparse(e) for e in a_data.elts] == params[:5]):
+                probs.append((f'the packet tuple handed to satisfy is {ast.unparse(a_data) if a_data is not None else "?"}, expected {tuple(params[:5])}', sc))
             # second arg: is_prefix == (prefix != name)
-            if len(sc.args) > 1:
-                t = ast.unparse(sc.args[1])
+            if a_pref is not None:
+                t = ast.unparse(a_pref)
                 okp = t in (f'{keyv} != {pname}', f'{pname} != {keyv}', f'not {keyv} == {pname}', f'not ({keyv} == {pname})',
                             f'len({keyv}) != len({pname})', f'len({keyv}) < len({pname})', f'len({pname}) > len({keyv})')
                 if not okp:
